@@ -195,11 +195,25 @@ func payloadTokens(symb string) []xml.Token {
 			xml.EndElement{Name: y},
 			xml.StartElement{Name: x, Attr: []xml.Attr{}}, xml.EndElement{Name: x},
 			xml.EndElement{Name: x}}
+	case "P_errdeep":
+		item := xml.Name{Space: nsVT, Local: "item"}
+		own := xml.Name{Space: nsVT, Local: "error"}
+		se := xml.Name{Space: stanza.NSClient, Local: "error"}
+		cond := xml.Name{Space: "urn:ietf:params:xml:ns:xmpp-stanzas", Local: "bad-request"}
+		return []xml.Token{
+			xml.StartElement{Name: x, Attr: []xml.Attr{}},
+			xml.StartElement{Name: item, Attr: []xml.Attr{}},
+			xml.StartElement{Name: own, Attr: []xml.Attr{}}, xml.CharData("7"), xml.EndElement{Name: own},
+			xml.StartElement{Name: se, Attr: []xml.Attr{{Name: xml.Name{Local: "type"}, Value: "modify"}}},
+			xml.StartElement{Name: cond, Attr: []xml.Attr{}}, xml.EndElement{Name: cond},
+			xml.EndElement{Name: se},
+			xml.EndElement{Name: item},
+			xml.EndElement{Name: x}}
 	}
 	panic("driver: unknown payload symbol " + symb)
 }
 
-var payloadSyms = []string{"P_none", "P_elem", "P_text", "P_nested"}
+var payloadSyms = []string{"P_none", "P_elem", "P_text", "P_nested", "P_errdeep"}
 
 // canonTokens renders tokens canonically (names, sorted attributes with values, text).
 func canonTokens(toks []xml.Token) string {
@@ -372,6 +386,46 @@ func runHelpers(kind string, v Rec, o *Obs) {
 				}
 				return Rec{"st": projIQ(iq), "er": projStanzaError(se)}, nil
 			})
+		}
+		// the same error stanza with the request's payload echoed in front of the <error/> (RFC 6120 8.3.1), as
+		// <stanza>.Wrap(MultiReader(payload, error)) builds it: the helpers find the stanza's OWN error child
+		if echo := o.encTokens("errorecho", func() xml.TokenReader {
+			all := append([]xml.Token{toks[0]}, payloadTokens(pl)...)
+			return replay(append(all, toks[1:]...))
+		}); echo != nil {
+			o.dec("errorecho/unmarshalerror", "err", func() (Rec, error) {
+				in, err := inner(echo)
+				if err != nil {
+					return nil, err
+				}
+				e, err := stanza.UnmarshalError(replay(in))
+				return projStanzaError(e), err
+			})
+			o.dec("errorecho/inner", "payload", func() (Rec, error) {
+				in, err := inner(echo)
+				if err != nil {
+					return nil, err
+				}
+				n := len(payloadTokens(pl))
+				if n > len(in) {
+					return nil, fmt.Errorf("echoed payload shorter than given")
+				}
+				return Rec{"pl": payloadName(in[:n])}, nil
+			})
+			if kind == "iq" {
+				o.dec("errorecho/unmarshaliqerror", "iqerr", func() (Rec, error) {
+					s, err := startOf(echo)
+					if err != nil {
+						return nil, err
+					}
+					iq, err := stanza.UnmarshalIQError(replay(echo[1:]), s)
+					se, ok := err.(stanza.Error)
+					if !ok {
+						return nil, fmt.Errorf("UnmarshalIQError did not return a stanza.Error: %v", err)
+					}
+					return Rec{"st": projIQ(iq), "er": projStanzaError(se)}, nil
+				})
+			}
 		}
 		if b := o.encBytes("errorbytes", func() ([]byte, error) { return tokensToBytes(toks) }); b != nil {
 			o.dec("errorbytes/unmarshalerror", "err", func() (Rec, error) {
